@@ -109,4 +109,4 @@ def run(ctx):
 
 
 def replay(ctx):
-    return storeprop.replay(ctx, ID, predicate)
+    return storeprop.replay(ctx, ID, predicate, known_matchers={"stale_link_handle": stale_link_handle})
